@@ -22,7 +22,7 @@ def _implies_empty(conds, var):
     return any(q.guards_imply(conds, t) for t in _empty_test(var))
 
 
-@rule('C02.f', ['C02'], floor=4)
+@rule('C02.f', ['C02', 'C19'], floor={'*': 4, 'C19': 1})
 def bodies_are_drained_until_an_empty_read(ctx):
     """Every loop that drains a GetObject body ends only when a read returns nothing - the
     iter(lambda: body.read(n), b'') idiom with no early exit, or explicit exits whose
@@ -31,6 +31,8 @@ def bodies_are_drained_until_an_empty_read(ctx):
     # the expanded view also covers a reader moved into / out of a helper
     x = ctx
     for qn in BODY_READERS:
+        if ctx.prop == 'C19' and not qn.startswith('processpool.'):
+            continue
         f = x.func(qn)
         reads = [c for c in ast.walk(f.node) if isinstance(c, ast.Call) and isinstance(c.func, ast.Attribute) and c.func.attr == 'read'
                  and not (dotted(c.func) or '').startswith('self._fileobj')]
